@@ -6,7 +6,7 @@ import RvModel.Hand.Draw
      draw.<Dist>   <kind> <params…> L<m> word…      ->  <value> <supports T|F> <words consumed>  | PANIC | HANG
      sample.<Dist> <kind> <params…> <n> L<m> word…  ->  L<n> value… <words consumed>             | PANIC | HANG
 
-   The generator words are mapped to variates by the exact maps `std01 / open01 / openClosed01 / uniform01`; the script
+   The generator words are mapped to variates by the exact maps `std01 / open01 / uniform01`; the script
    semantics (`wordAt`: repeat the last word for ever) is that of `wire.rs::Script`.  Rust `mul_add` is evaluated by
    `fmaF`, the correctly rounded binary64 fused multiply–add computed with exact integer arithmetic, so the answers are
    expected to agree with the implementation BIT FOR BIT.  `HANG` = the model's fuel (`fuelC04` loop iterations) ran out. -/
@@ -107,12 +107,12 @@ def tableC04 : List (String × Rd String) := [
   ("draw.Laplace", do
     let _ ← Wire.next; let mu ← rdF; let b ← rdF; let ws ← rdL rdN
     let d : Gen.Laplace Float := { mu := mu, b := b }
-    let x := laplaceDrawWith fmaF d (openClosed01 (wordAt ws 0))
+    let x := laplaceDrawWith fmaF d (open01 (wordAt ws 0))
     pure (wrOutcome wrF (Gen.Laplace.supports_real d) (.ok x 1))),
   ("sample.Laplace", do  -- default `sample` of traits.rs:59-61: n calls of `draw`
     let _ ← Wire.next; let mu ← rdF; let b ← rdF; let n ← rdN; let ws ← rdL rdN
     let d : Gen.Laplace Float := { mu := mu, b := b }
-    pure (wrL wrF ((List.range n).map (fun i => laplaceDrawWith fmaF d (openClosed01 (wordAt ws i)))) ++ " " ++ wrN n)),
+    pure (wrL wrF ((List.range n).map (fun i => laplaceDrawWith fmaF d (open01 (wordAt ws i)))) ++ " " ++ wrN n)),
   ("draw.Gev", do
     let _ ← Wire.next; let d ← rdGev; let ws ← rdL rdN
     let x := gevDrawWith fmaF d (open01 (wordAt ws 0))
@@ -123,21 +123,21 @@ def tableC04 : List (String × Rd String) := [
   ("draw.Kumaraswamy", do
     let _ ← Wire.next; let a ← rdF; let b ← rdF; let ws ← rdL rdN
     let d : Gen.Kumaraswamy Float := { a := a, b := b }
-    let x := kumaraswamyDraw d (std01 (wordAt ws 0))
+    let x := kumaraswamyDraw d (open01 (wordAt ws 0))
     pure (wrOutcome wrF (Gen.Kumaraswamy.supports_real d) (.ok x 1))),
   ("sample.Kumaraswamy", do
     let _ ← Wire.next; let a ← rdF; let b ← rdF; let n ← rdN; let ws ← rdL rdN
     let d : Gen.Kumaraswamy Float := { a := a, b := b }
-    pure (wrL wrF ((List.range n).map (fun i => kumaraswamyDraw d (std01 (wordAt ws i)))) ++ " " ++ wrN n)),
+    pure (wrL wrF ((List.range n).map (fun i => kumaraswamyDraw d (open01 (wordAt ws i)))) ++ " " ++ wrN n)),
   ("draw.UnitPowerLaw", do
     let _ ← Wire.next; let alpha ← rdF; let ws ← rdL rdN
     let d : Gen.UnitPowerLaw Float := { alpha := alpha }
-    let x := unitPowerLawDraw d (std01 (wordAt ws 0))
+    let x := unitPowerLawDraw d (open01 (wordAt ws 0))
     pure (wrOutcome wrF (Gen.UnitPowerLaw.supports_real d) (.ok x 1))),
   ("sample.UnitPowerLaw", do
     let _ ← Wire.next; let alpha ← rdF; let n ← rdN; let ws ← rdL rdN
     let d : Gen.UnitPowerLaw Float := { alpha := alpha }
-    pure (wrL wrF (unitPowerLawSample d ((List.range n).map (fun i => std01 (wordAt ws i)))) ++ " " ++ wrN n)),
+    pure (wrL wrF (unitPowerLawSample d ((List.range n).map (fun i => open01 (wordAt ws i)))) ++ " " ++ wrN n)),
   ("draw.Geometric", do
     let kind ← Wire.next; let p ← rdF; let ws ← rdL rdN
     let d : Gen.Geometric Float := { p := p }
